@@ -14,3 +14,30 @@ Definition c_two_kinds : lcase :=
     [("/api/root.json", "p.json", "/api/p.json")] 2 [] [].
 Theorem C20_refuted_callback_of_another_kind : run c_two_kinds = RPanic.
 Proof. vm_compute. reflexivity. Qed.
+
+(* the positive side: for a document whose references are all internal (#/...), none into an
+   extension area, and each reference text used at one kind only (K), loading never panics - at any
+   fuel, through every entry point, for every reference graph (chains, diamonds, cycles, dangling
+   and wrong-kind targets included: those yield errors).  Invariant over the whole interpreter:
+   every registered callback has the kind of the routine that will complete its reference. *)
+From KV Require Import Proofs.LoaderNoPanic.
+Theorem C20_no_panic_single_document :
+  forall allow files rpath (K : string -> kind) fuel entry root rootfile,
+    file_ok K rootfile -> files root = Some rootfile ->
+    load allow files rpath fuel entry root rootfile <> RPanic.
+Proof. exact load_no_panic. Qed.
+Print Assumptions C20_no_panic_single_document.
+
+(* non-vacuity: the chain / diamond / cycle document of C02 meets the hypotheses *)
+Example C20_hypotheses_satisfiable :
+  let K := fun _ : string => KSchema in
+  let f := mkFile [(["components"; "schemas"; "A"], KSchema, true,
+                    NObj 1 [("properties", "x", KSchema, NRef "#/components/schemas/B"); ("properties", "y", KSchema, NRef "#/components/schemas/A")]);
+                   (["components"; "schemas"; "B"], KSchema, true, NRef "#/components/schemas/A")] [] None in
+  file_ok K f.
+Proof.
+  cbn. split; [reflexivity|]. split; [|split; exact I].
+  intros p k t n [E|[E|[]]]; inversion E; subst.
+  - constructor. intros c key k' ch [E1|[E1|[]]]; inversion E1; subst; constructor; reflexivity.
+  - constructor; reflexivity.
+Qed.
